@@ -175,6 +175,12 @@ func (rs *RecordSet) writeToVersion1(buffer *pageBuffer, bufferOffset int64) err
 				return err
 			}
 
+			if buffer.Size() == bufferOffset {
+				// There were no records: write an empty message set, like the
+				// uncompressed case, not a wrapper around a compressed nothing.
+				return nil
+			}
+
 			compressed := newPageBuffer()
 			defer compressed.unref()
 
